@@ -555,6 +555,12 @@ func C19(run *hx.Run) {
 			}
 		}
 		after := settle()
+		// goroutines that are merely slow to exit on a loaded machine get more chances; leaked ones stay for ever
+		for i := 0; i < 4000 && after > before+3; i++ {
+			runtime.Gosched()
+			time.Sleep(time.Millisecond)
+			after = runtime.NumGoroutine()
+		}
 		run.Eval(nq)
 		run.Distinct("own-context-type/leak")
 		if after > before+3 {
